@@ -148,7 +148,7 @@ def gen_catalog(rng, rich=True):
     r = rng.random()
     if r < 0.6:
         kind = rng.choice(['list', 'legacy'])
-        ps = [('pred', rng.choice(['mindsdb', None, 'proj', 'mlflow', 'MindsDB']))]
+        ps = [('pred', rng.choice(['mindsdb', None, 'proj', 'mlflow', 'MindsDB', 'Proj', 'MLflow', 'Proj']))]
         if rng.random() < 0.4:
             ps.append((rng.choice(['m2', 'Pred', 'pred']), rng.choice(['mindsdb', 'proj', None])))
         if kind == 'legacy' and rng.random() < 0.15:
@@ -156,6 +156,10 @@ def gen_catalog(rng, rich=True):
         pm = (kind, ps)
     pns = rng.choice([None, None, 'mindsdb', 'MINDSDB', 'proj', ''])
     dns = rng.choice([None, 'mindsdb', 'mindsdb', 'int1', 'proj', 'int2', 'files', 'Proj'])
+    if pm is not None and pm[0] == 'list' and any(i and i != i.lower() for _, i in pm[1]) and rng.random() < 0.7:
+        # the model's project is spelled with capitals and registered nowhere else; default namespace = a data integration
+        dns = rng.choice(['int1', 'int2'])
+        ints = [it for it in (ints or []) if it[1].lower() != 'proj']
     return Cat(ints, pns, pm, dns)
 
 
@@ -249,9 +253,15 @@ def walker_children(node):
             vis.append(('a', node.having))
         if node.order_by is not None:
             vis += [('a', x) for x in node.order_by]
+        if node.limit is not None:
+            vis.append(('a', node.limit))
+        if node.offset is not None:
+            vis.append(('a', node.offset))
     elif isinstance(node, (A.Union, A.Intersect, A.Except)):
         kind, par = 'S', 'n'
-        vis = [('a', node.left), ('a', node.right)]
+        if getattr(node, 'cte', None) is not None:
+            vis += [('a', c.query) for c in node.cte]
+        vis += [('a', node.left), ('a', node.right)]
     elif isinstance(node, A.Join):
         vis = [('t', node.right), ('t', node.left)]
         if node.condition is not None:
@@ -260,6 +270,8 @@ def walker_children(node):
         if isinstance(node, A.Function):
             kind = 'F'
         vis = [('a', x) for x in node.args]
+        if isinstance(node, A.Function) and node.from_arg is not None:
+            vis.append(('a', node.from_arg))
     elif isinstance(node, A.WindowFunction):
         vis = [('a', node.function)]
         vis += [('a', x) for x in (node.partition or [])]
@@ -295,6 +307,8 @@ def walker_children(node):
             vis.append(('a', node.from_select))
     elif isinstance(node, A.Delete):
         kind, par = 'S', 'n'
+        if node.table is not None:
+            vis.append(('t', node.table))
         if node.where is not None:
             vis.append(('a', node.where))
     elif isinstance(node, A.OrderBy):
@@ -541,6 +555,14 @@ class QGen:
         tr = rng.choice(trs)
         c = self.qcol(tr) if len(trs) > 1 else self.col(tr)
         r = rng.random()
+        if depth < 1 and r < 0.07 and not self.single:
+            # a sub-query that ITSELF joins a table of one integration with a table of another one
+            a = self.tref(db=tr['db'], force_alias=True)
+            other = 'int2' if tr['db'] == 'int1' else 'int1'
+            b = self.tref(db=other if rng.random() < 0.8 else tr['db'], force_alias=True)
+            self.features.add('sub:where-in-join')
+            return '%s IN (SELECT %s FROM %s JOIN %s ON %s = %s)' % (
+                c, self.col(a, 'id', 'tab'), a['sql'], b['sql'], self.col(a, 'id', 'tab'), self.col(b, 'id', 'tab'))
         if depth < 1 and r < 0.22:
             sub = self.tref()
             self.features.add('sub:where-in')
@@ -579,6 +601,12 @@ class QGen:
             return c, 'ident'
         if r < 0.55:
             return '%s AS c%d' % (c, i), 'aliased'
+        if r < 0.575 and not self.single:
+            a = self.tref(force_alias=True)
+            b = self.tref(db='int2' if a['db'] == 'int1' else 'int1', force_alias=True)
+            self.features.add('sub:target-join')
+            return '(SELECT max(%s) FROM %s JOIN %s ON %s = %s) AS j%d' % (
+                self.col(a, None, 'tab'), a['sql'], b['sql'], self.col(a, 'id', 'tab'), self.col(b, 'id', 'tab'), i), 'aliased'
         if r < 0.62:
             self.features.add('sub:target')
             s, _ = self.scalar_sub()
@@ -606,9 +634,12 @@ class QGen:
             return '%s + 1 AS e%d' % (c, i), 'aliased'
         if r < 0.92:
             return 'abs(%s) AS g%d' % (c, i), 'aliased'
-        if r < 0.95 and not multi:
+        if r < 0.91 and not multi:
             return '%s + 1' % c, 'expr'
-        return '%s.*' % tr['exposed'] if multi else '*', 'star'
+        if tr['alias'] is None and rng.random() < 0.6:
+            self.features.add('star-qualified')
+            return '%s.%s.*' % (spell(rng, tr['db']) if self.spellings else tr['db'], tr['table']), 'star'
+        return '%s.*' % tr['exposed'] if (multi or rng.random() < 0.4) else '*', 'star'
 
     def select(self, depth=0, allow_union=True):
         rng = self.rng
@@ -704,10 +735,19 @@ class QGen:
         if r < 0.16 and (self.cat.dns is not None):
             self.features.add('cte')
             inner, _, _ = self.select(depth=1, allow_union=False)
-            name = 'cte1'
+            name = rng.choice(['cte1', 'cte1', 'latest', 'logs', 'first', 'status', 'tables', 'last', 'view', 'model'])
+            if name != 'cte1':
+                self.features.add('cte-keyword-name')
             if rng.random() < self.adv:
                 name = self.single or 'int1'
                 self.features.add('cte=integration')
+            if rng.random() < 0.5:
+                self.features.add('cte-used')
+                main = 'SELECT * FROM %s' % name
+                if rng.random() < 0.4:
+                    tr = self.tref(force_alias=True)
+                    main = 'SELECT %s FROM %s AS cq JOIN %s ON 1 = 1' % (self.col(tr, None, 'tab'), name, tr['sql'])
+                return 'WITH %s AS (%s) %s' % (name, inner, main), 'select'
             sel, _, tg = self.select(depth=1, allow_union=False)
             return 'WITH %s AS (%s) %s' % (name, inner, sel), 'select'
         if r < 0.2 and self.allow_models and self.cat.pm is not None and not self.single:
